@@ -177,7 +177,12 @@ func (g *tgen) on(f string, num, den int) bool {
 	return true
 }
 
-var directiveLike = []string{"{{x}}", "{{v0}}", "{{#if c0}}", "{{/if}}", "{{else}}", "{{#each l0}}", "{{/each}}", "{{this}}", "{{@index}}", "{{#image pic}}", "{{f0}}", "{{#if c0}}A{{else}}B{{/if}}", "{{#each l0}}{{this}}{{/each}}", "{{extends \"base\"}}", "{{#block \"main\"}}x{{/block}}", "{{", "}}", "{{v1}} and {{#if c1}}"}
+var directiveLike = []string{"{{x}}", "{{v0}}", "{{#if c0}}", "{{/if}}", "{{else}}", "{{#each l0}}", "{{/each}}", "{{this}}", "{{@index}}", "{{#image pic}}", "{{f0}}", "{{#if c0}}A{{else}}B{{/if}}", "{{#each l0}}{{this}}{{/each}}", "{{extends \"base\"}}", "{{#block \"main\"}}x{{/block}}", "{{", "}}", "{{v1}} and {{#if c1}}",
+	// odd runs of braces and fragments that become a directive only together with their neighbourhood
+	"{{{v0}}}", "{{{f1_0}}}", "{{{#image pic}}}", "{{{{x}}", "{{{", "{", "{v0}}", "{#image pic0}}", "{#if c0}}", "{/if}}", "{else}}", "{{v0}", "{{#each l0}", "[IMAGE:pic0]", "[[IMAGE:pic0]]", "[", "IMAGE:pic0]", "{[IMAGE:pic1]}", "{{this}", "{this}}", "{{@index}"}
+
+// splittable: complete directives that the generator cuts in two and hands to two adjacent variables
+var splittable = []string{"{{v0}}", "{{v1}}", "{{#image pic0}}", "{{#if c0}}", "{{/if}}", "{{else}}", "{{#each l0_1}}", "{{/each}}", "{{this}}", "{{@index}}", "[IMAGE:pic0]", "{{f1_0}}", "{{nov0}}"}
 
 func (g *tgen) value() interface{} {
 	r := g.r
@@ -250,6 +255,16 @@ func (g *tgen) nodes(ctx string, depth, budget int, item map[string]interface{})
 		case k < 3: // variable / field
 			switch ctx {
 			case "top":
+				if g.on("dlv", 1, 10) {
+					// two adjacent variables whose values only together spell a directive: still two verbatim values
+					d := splittable[r.Intn(len(splittable))]
+					cut := r.Range(1, len(d)-1)
+					g.nvar++
+					na, nb := fmt.Sprintf("sa%d", g.nvar), fmt.Sprintf("sb%d", g.nvar)
+					g.d.vars[na], g.d.vars[nb] = gen.Word(r, 0, 2)+d[:cut], d[cut:]+gen.Word(r, 0, 2)
+					out = append(out, &tnode{kind: "var", text: na}, &tnode{kind: "var", text: nb})
+					break
+				}
 				name := fmt.Sprintf("v%d", r.Intn(6))
 				if g.on("missing", 1, 6) {
 					name = fmt.Sprintf("nov%d", r.Intn(3))
